@@ -1,10 +1,10 @@
-import HexVerif.Asm.Parser
+import HexVerif.Asm.CodeGen
 /-!
   hexasm's lexer model (`Asm/Lexer.lean`) with an explicit junk content for `Lexer::value`, the member
   the C++ constructor leaves uninitialised: the token sequences lexed from different junk values agree
-  in everything but the `value` field of tokens that are not NUMBER (C11).  (`Asm.parseProgram` reads
-  `value` only in `parseInteger`, under `tok = NUMBER`; lifting this lemma through the parser is the
-  remaining obligation for hexasm.)
+  in everything but the `value` field of tokens that are not NUMBER, `Asm.parseProgram` cannot tell
+  such sequences apart (it reads `value` only in `parseInteger`, under `tok = NUMBER`), hence the whole
+  assembler model `Asm.run` does not depend on the junk (C11).
 -/
 namespace Hex.Asm
 
@@ -138,5 +138,169 @@ theorem tokenizeJ_rel (j1 j2 : Nat) (src : List Byte) : RToks (tokenizeJ j1 src)
   lexGo_relA src .start _ _ ⟨rfl, rfl, rfl⟩
 
 theorem tokenize_eq_J (src : List Byte) : tokenize src = tokenizeJ 0 src := rfl
+
+end Hex.Asm
+
+namespace Hex.Asm
+set_option linter.unusedVariables false
+set_option linter.unusedSimpArgs false
+
+def erase (t : LTok) : LTok := if t.tok = .NUMBER then t else { t with value := 0 }
+
+@[simp] theorem erase_tok (t : LTok) : (erase t).tok = t.tok := by unfold erase; split <;> rfl
+@[simp] theorem erase_ident (t : LTok) : (erase t).ident = t.ident := by unfold erase; split <;> rfl
+@[simp] theorem erase_loc (t : LTok) : (erase t).loc = t.loc := by unfold erase; split <;> rfl
+theorem erase_value (t : LTok) (h : t.tok = .NUMBER) : (erase t).value = t.value := by unfold erase; simp [h]
+
+theorem parseInteger_erase (n : LTok) (rest : List LTok) :
+    parseInteger (erase n) (rest.map erase) =
+      match parseInteger n rest with
+      | .ok (v, r) => .ok (v, r.map erase)
+      | .error e => .error e := by
+  unfold parseInteger
+  simp only [erase_tok]
+  split
+  · cases rest with
+    | nil => simp
+    | cons m r =>
+      simp only [List.map_cons, erase_tok, erase_loc]
+      split
+      · rename_i hm; simp [erase_value m hm]
+      · simp
+  · split
+    · rename_i hn; simp [erase_value n hn]
+    · simp
+
+/-- The continuation shape shared by the DATA and the immediate-operand cases. -/
+theorem cont_erase (n : LTok) (rest' : List LTok) (f : I32 → Dir) (loc : Loc)
+    (ih : ∀ r : List LTok, r.length ≤ rest'.length → parseProgram (r.map erase) = parseProgram r) :
+    (match h : parseInteger (erase n) (rest'.map erase) with
+      | .ok (v, rest'') =>
+        match parseProgram rest'' with
+        | .ok ds => Except.ok ((f v, loc) :: ds)
+        | .error e => .error e
+      | .error e => .error e) =
+    (match h : parseInteger n rest' with
+      | .ok (v, rest'') =>
+        match parseProgram rest'' with
+        | .ok ds => Except.ok ((f v, loc) :: ds)
+        | .error e => .error e
+      | .error e => .error e) := by
+  have hpe := parseInteger_erase n rest'
+  cases hpi : parseInteger n rest' with
+  | error e0 =>
+    have hpe' : parseInteger (erase n) (rest'.map erase) = .error e0 := by rw [hpe, hpi]
+    split
+    · rename_i v r'' h1; rw [hpe'] at h1; cases h1
+    · rename_i e h1
+      rw [hpe'] at h1; injection h1 with h1; subst h1
+      rfl
+  | ok p =>
+    obtain ⟨v0, r0⟩ := p
+    have hpe' : parseInteger (erase n) (rest'.map erase) = .ok (v0, r0.map erase) := by rw [hpe, hpi]
+    have hlen := parseInteger_length hpi
+    split
+    · rename_i v r'' h1
+      rw [hpe'] at h1
+      simp only [Except.ok.injEq, Prod.mk.injEq] at h1
+      obtain ⟨hv, hr⟩ := h1
+      subst hv; subst hr
+      rw [ih r0 hlen]
+    · rename_i e h1; rw [hpe'] at h1; cases h1
+
+theorem parseProgram_erase : ∀ (k : Nat) (xs : List LTok), xs.length ≤ k → parseProgram (xs.map erase) = parseProgram xs := by
+  intro k
+  induction k with
+  | zero =>
+    intro xs h
+    cases xs with
+    | nil => rfl
+    | cons _ _ => simp at h
+  | succ k ih =>
+    intro xs hlen
+    cases xs with
+    | nil => rfl
+    | cons t rest =>
+      have hrest : rest.length ≤ k := by simp at hlen; omega
+      rw [List.map_cons, parseProgram.eq_def (erase t :: _), parseProgram.eq_def (t :: rest)]
+      simp only [erase_tok, erase_loc, erase_ident]
+      cases ht : t.tok <;> simp only []
+      case DATA =>
+        cases rest with
+        | nil => rfl
+        | cons n rest' =>
+          simp only [List.map_cons, erase_loc]
+          exact cont_erase n rest' Dir.data t.loc (fun r hr => ih r (by simp at hrest; omega))
+      case IDENTIFIER => rw [ih rest hrest]
+      case FUNC =>
+        cases rest with
+        | nil => rfl
+        | cons n rest' =>
+          simp only [List.map_cons, erase_ident]
+          rw [ih rest' (by simp at hrest; omega)]
+      case PROC =>
+        cases rest with
+        | nil => rfl
+        | cons n rest' =>
+          simp only [List.map_cons, erase_ident]
+          rw [ih rest' (by simp at hrest; omega)]
+      case OPR =>
+        cases rest with
+        | nil => rfl
+        | cons n rest' =>
+          simp only [List.map_cons, erase_tok]
+          rw [ih rest' (by simp at hrest; omega)]
+      all_goals
+        simp only [Tok.opc]
+        try rfl
+      all_goals
+        cases rest with
+        | nil => rfl
+        | cons n rest' =>
+          simp only [List.map_cons, erase_tok, erase_ident, erase_loc]
+          split
+          · rw [ih rest' (by simp at hrest; omega)]
+          · exact cont_erase n rest' _ t.loc (fun r hr => ih r (by simp at hrest; omega))
+
+
+theorem erase_of_rel {a b : LTok} (h : RTokA a b) : erase a = erase b := by
+  obtain ⟨h1, h2, h3, h4⟩ := h
+  cases a with
+  | mk ta ia va la =>
+    cases b with
+    | mk tb ib vb lb =>
+      simp only at h1 h2 h3 h4
+      subst h1; subst h2; subst h3
+      unfold erase
+      by_cases hn : ta = .NUMBER
+      · simp only [hn, if_true]; rw [h4 hn]
+      · simp only [hn, if_false]
+
+theorem map_erase_of_rel {xs ys : List LTok} (h : RToks xs ys) : xs.map erase = ys.map erase := by
+  induction h with
+  | nil => rfl
+  | cons hab _ ih => simp only [List.map_cons, erase_of_rel hab, ih]
+
+/-- The parser cannot tell indistinguishable token sequences apart. -/
+theorem parseProgram_rel {xs ys : List LTok} (h : RToks xs ys) : parseProgram xs = parseProgram ys := by
+  rw [← parseProgram_erase xs.length xs (Nat.le_refl _), ← parseProgram_erase ys.length ys (Nat.le_refl _),
+    map_erase_of_rel h]
+
+/-- `Asm.run` with an explicit junk content of `Lexer::value`. -/
+def runJ (junk : Nat) (src : List Byte) : Outcome :=
+  match parseProgram (tokenizeJ junk src) with
+  | .error e => .diag e
+  | .ok p =>
+    match assemble p with
+    | .error e => .diag e
+    | .ok none => .fuel
+    | .ok (some img) => .ok img p
+
+theorem run_eq_runJ (src : List Byte) : run src = runJ 0 src := rfl
+
+/-- The whole assembler model does not depend on the junk. -/
+theorem runJ_indep (j1 j2 : Nat) (src : List Byte) : runJ j1 src = runJ j2 src := by
+  unfold runJ
+  rw [parseProgram_rel (tokenizeJ_rel j1 j2 src)]
 
 end Hex.Asm
